@@ -4,6 +4,8 @@
 //! Stand-ins: `tracing`, `lru`, `vcoll`, `flume`.
 //! @needs: socket core put_query iterative_query routing_table closest_nodes
 use super::*;
+#[allow(unused_imports)]
+use crate::verif_env::k as kani;
 use crate::actor::socket::kani_h::{fake_socket, send_stub, srt_stub, SENT_N};
 use crate::common::{AnnouncePeerRequestArguments, PutMutableRequestArguments};
 use crate::core::iterative_query::IterativeQuery;
